@@ -7,6 +7,7 @@ from harness import tlc
 from harness.common import CANARY_BASE, Report, import_hpl, split_canaries, tier
 from harness.corpus import accepted, accepted_families
 from harness.project import project
+from harness.rewrites import applicable, results_of, run_call
 
 ALPHA = ['v', 'x', 'A', 'f', 'a', 'zz']
 
@@ -62,9 +63,22 @@ def query_event(o):
     return ev
 
 
+def extra_derivations(obj):
+    from hpl.ast.expressions import HplExpression, HplLiteral, HplThisMessage, HplVarReference
+    from hpl.ast.predicates import HplPredicate
+    out = []
+    if isinstance(obj, (HplExpression, HplPredicate)):
+        out.append(('replace_var_reference(v->this)', lambda: obj.replace_var_reference('v', HplThisMessage())))
+        out.append(('replace_var_reference(A->@Z)', lambda: obj.replace_var_reference('A', HplVarReference('@Z'))))
+        out.append(('replace_self_reference(@Q)', lambda: obj.replace_self_reference(HplVarReference('@Q'))))
+    return out
+
+
 def run(replay=None):
     import_hpl()
     rep = Report('C15')
+    from harness.common import rng
+    rnd = rng('c15')
     thorough = tier() == 'thorough'
     asts, stats = accepted(thorough, limit=None if thorough else 12000)
     rep.add_tlc(stats)
@@ -82,6 +96,22 @@ def run(replay=None):
             events.append(ev)
             info[eid] = (text, type(o).__name__)
             slot_cov[type(o).__name__] = slot_cov.get(type(o).__name__, 0) + 1
+        # trees DERIVED from an already queried tree (copy-with-changes, substitutions, rewrites)
+        if rnd.random() < (1.0 if thorough else 0.3):
+            for name, thunk in applicable(obj) + extra_derivations(obj):
+                out, r = run_call(thunk)
+                if out != 'ok':
+                    continue
+                for d in results_of(r):
+                    if d is obj:
+                        continue
+                    for o in subnodes(d)[:6]:
+                        eid += 1
+                        ev = query_event(o)
+                        ev['id'] = eid
+                        events.append(ev)
+                        info[eid] = ('%s of %s' % (name, text), type(o).__name__)
+                        slot_cov['derived'] = slot_cov.get('derived', 0) + 1
     rep.cov['nodes_by_class'] = slot_cov
     # canaries
     canaries = []
